@@ -338,15 +338,23 @@ Definition sub_after_fail (x : ctx) : sub :=
                | Some v => v | None => IMAX end in
   with_core s (s_rep_at s) retry fc (s_seen s) (s_seen_ev s) (s_del s) (s_dev s) (s_since s).
 
+(** does the completing context own the [reporting] slot?  Repaired code ([slot = true]): only the
+    context whose subscription id is the one of the in-flight clone; before the repair: every context *)
+Definition owns_slot (slot : bool) (st : state) (sid : N) : bool :=
+  if slot then match reporting st with Some r => s_id r =? sid | None => false end else true.
+
 (** [SubscriptionsInner::report_complete] *)
-Definition report_complete (st : state) (sid : N) (s' : sub) (keep : bool) : state :=
+Definition report_complete (slot : bool) (st : state) (sid : N) (s' : sub) (keep : bool) : state :=
   let cs := remove_ctx sid (ctxs st) in
-  if cancelled st then
-    mkSt (next_sid st) (count st - 1) (subs st) (tab st) (next_chg st) None false cs (kv st) (log st) (nchg st) (evn st)
+  let own := owns_slot slot st sid in
+  let rep := if own then None else reporting st in
+  let canc := if own then false else cancelled st in
+  if own && cancelled st then
+    mkSt (next_sid st) (count st - 1) (subs st) (tab st) (next_chg st) rep canc cs (kv st) (log st) (nchg st) (evn st)
   else if keep then
-    mkSt (next_sid st) (count st) (subs st ++ [s']) (tab st) (next_chg st) None false cs (kv st) (log st) (nchg st) (evn st)
+    mkSt (next_sid st) (count st) (subs st ++ [s']) (tab st) (next_chg st) rep canc cs (kv st) (log st) (nchg st) (evn st)
   else
-    mkSt (next_sid st) (count st - 1) (subs st) (tab st) (next_chg st) None false cs (kv st) (log st) (nchg st) (evn st).
+    mkSt (next_sid st) (count st - 1) (subs st) (tab st) (next_chg st) rep canc cs (kv st) (log st) (nchg st) (evn st).
 
 (** [SubscriptionsInner::add] *)
 Definition fresh_sub (st : state) (now fab peer min max : N) (paths : list path) : sub :=
@@ -395,7 +403,7 @@ Definition report_slot_free (st : state) : bool :=
 
 (** [ob]: when given, the emitted/skipped decision observed on the implementation is used for
     the ghost bookkeeping of [OCtxRead] instead of the model's own (monitor mode only) *)
-Definition step_gen (fixed : bool) (ob : option bool) (st : state) (o : op) : state * out :=
+Definition step_gen (fixed slot : bool) (ob : option bool) (st : state) (o : op) : state * out :=
   match o with
   | OChange ep cl at_ =>
       let new := mkEntry ep cl at_ (next_chg st) in
@@ -425,9 +433,9 @@ Definition step_gen (fixed : bool) (ob : option bool) (st : state) (o : op) : st
       | None => (st, UNone)
       | Some x =>
           match r with
-          | EOk => (report_complete st sid (sub_after_ok (visit_rest (tab st) (nchg st) x)) true, UBool true)
-          | EFail => (report_complete st sid (sub_after_fail x) true, UBool true)
-          | EDrop => (report_complete st sid (x_sub x) false, UBool true)
+          | EOk => (report_complete slot st sid (sub_after_ok (visit_rest (tab st) (nchg st) x)) true, UBool true)
+          | EFail => (report_complete slot st sid (sub_after_fail x) true, UBool true)
+          | EDrop => (report_complete slot st sid (x_sub x) false, UBool true)
           end
       end
   | OReportBegin now lag =>
@@ -463,11 +471,11 @@ Definition step_gen (fixed : bool) (ob : option bool) (st : state) (o : op) : st
   end.
 
 (** the repaired code *)
-Definition step (st : state) (o : op) : state * out := step_gen true None st o.
+Definition step (st : state) (o : op) : state * out := step_gen true true None st o.
 
-Fixpoint run_gen (fixed : bool) (st : state) (ops : list op) : state :=
+Fixpoint run_gen (fixed slot : bool) (st : state) (ops : list op) : state :=
   match ops with
   | [] => st
-  | o :: t => run_gen fixed (fst (step_gen fixed None st o)) t
+  | o :: t => run_gen fixed slot (fst (step_gen fixed slot None st o)) t
   end.
-Definition run := run_gen true.
+Definition run := run_gen true true.
